@@ -1,12 +1,13 @@
 use crate::filter::encoding::SupportedEncoding;
 use crate::filter::error::Result;
 use brotli::DecompressorWriter;
-use flate2::write::{GzDecoder, ZlibDecoder};
+use flate2::write::{MultiGzDecoder, ZlibDecoder};
 use std::fmt::{Debug, Formatter};
 use std::io::Write;
 
 pub enum DecodeFilterBody {
-    Gzip(GzDecoder<Vec<u8>>),
+    // A gzip body can be made of several members (RFC 1952, 2.2)
+    Gzip(MultiGzDecoder<Vec<u8>>),
     Brotli(Box<DecompressorWriter<Vec<u8>>>),
     Deflate(ZlibDecoder<Vec<u8>>),
 }
@@ -21,7 +22,7 @@ impl DecodeFilterBody {
     pub fn new(encoding: SupportedEncoding) -> Self {
         match encoding {
             SupportedEncoding::Brotli => Self::Brotli(Box::new(DecompressorWriter::new(Vec::new(), 4096))),
-            SupportedEncoding::Gzip => Self::Gzip(GzDecoder::new(Vec::new())),
+            SupportedEncoding::Gzip => Self::Gzip(MultiGzDecoder::new(Vec::new())),
             SupportedEncoding::Deflate => Self::Deflate(ZlibDecoder::new(Vec::new())),
         }
     }
@@ -80,7 +81,7 @@ impl DecodeFilterBody {
                 Ok(decoder.finish()?)
             }
             Self::Gzip(d) => {
-                let mut decoder = GzDecoder::new(Vec::new());
+                let mut decoder = MultiGzDecoder::new(Vec::new());
                 std::mem::swap(d, &mut decoder);
 
                 decoder.try_finish()?;
